@@ -77,7 +77,10 @@ func (t *ParseTree) Parse(p *Parser) (Statement, error) {
 		}
 
 		// There were no registered handlers. Return the valid tokens in the order they were added.
-		return nil, newParseError(tokstr(tok, lit), t.Keys, pos)
+		// Hand out a copy: the keys belong to the shared parse tree.
+		expected := make([]string, len(t.Keys))
+		copy(expected, t.Keys)
+		return nil, newParseError(tokstr(tok, lit), expected, pos)
 	}
 }
 
